@@ -28,6 +28,20 @@ CLAIMED = {
          "TLC model checking of the Disk allocation machine (real and small geometry, exhaustion runs, exhaustive length bookkeeping) + TLC-exported add-sequences replayed into DiskFile + TLC validation of per-add image deltas (Tr_Disk)", "7 C07/C08/C15"),
  "C15": ("Disk.tla states enabledness of AddFile exactly (granules needed vs free, slot free) and TLC checks Capacity / FitsIfRoom / exhaustion runs (72 slots, 68 granules); replayed sequences must succeed when the machine says they must fit and fail when they cannot, using the minimum number of granules (or one more at exact multiples), all previously free, and one slot",
          "TLC model checking of the Disk allocation machine (real and small geometry, exhaustion runs, exhaustive length bookkeeping) + TLC-exported add-sequences replayed into DiskFile + TLC validation of per-add image deltas (Tr_Disk)", "7 C07/C08/C15"),
+ "C09": ("spec/Host.tla AppendPreserves / AppendHappens / NeverLost checked by TLC on all command histories of depth 2 (thorough 3); replayed through the CLIs and, for boundary-length files up to a full medium and tapes past 161,280 bytes, through VirtualFile open/add/save on real temp files; after every step the host bytes are read by the specification's readers (every earlier file, in order, then the new one) and the hook events (exists, sniffed kind, wrote) are validated",
+         "TLC model checking of the Host command machine (table vs separately phrased properties, all histories of bounded depth) + TLC-exported command histories replayed through both CLIs + TLC validation of every step: contents read by the spec's tape / disk readers, VirtualFile hook events", "7 C09"),
+ "C10": ("spec/Host.tla: the table Allowed(pre, cmd) of required post contents and, independently phrased, OnlyAppendModifies / CompleteImage; TLC checks the table against them over the full matrix {--to_bin,--to_cas,--to_dsk} x {append, not} x 8 kinds of existing target x both tools and all 2-step sequences; every first-step cell and a seeded sample of the sequences is replayed through assembler.py / file_util.py, bytes before/after compared, what was written is classified by the spec's readers, refusals must print a message",
+         "TLC model checking of the Host command machine (table vs separately phrased properties, all histories of bounded depth) + TLC-exported command histories replayed through both CLIs + TLC validation of every step: contents read by the spec's tape / disk readers, VirtualFile hook events", "7 C10"),
+ "C11": ("TLC enumerates the configuration space (name source x name shape x switches alone/combined x origin x image size x END operand); assembler.py is run on each, the .bin is compared with the API image and the .cas/.dsk are read by Tape!ParseTape / DiskBytes!ReadAll: one ML file, data = image, load = origin, entry, name rule, nothing created without a name; file_util --list must agree",
+         "TLC-enumerated configurations replayed through assembler.py + TLC validation of the saved files with the spec's tape / disk readers (Tr_C11)", "7 C11"),
+ "C16": ("conversions through file_util.py (tape<->disk<->binary, every kind of --files selection and spelling, and back) judged step by step with Host!Allowed: the target, read by the spec's readers, holds exactly the selected catalogue files in source order",
+         "TLC model checking of the Host command machine (table vs separately phrased properties, all histories of bounded depth) + TLC-exported command histories replayed through both CLIs + TLC validation of every step: contents read by the spec's tape / disk readers, VirtualFile hook events", "7 C16"),
+ "C17": ("spec/Session.tla memo machine: out = memo[src] whenever src was seen; TLC enumerates every order of <= 4 assemblies over a pool of 6 sources; each history is run warm and in fresh processes under several hash seeds, every event carries the full output, Tr_Session folds the memo machine over all of them",
+         "TLC-exported histories replayed in warm and fresh interpreters + TLC validation with the memo machine (Tr_Session)", "7 C17"),
+ "C18": ("Session!Relocated / Renamed / SameOutput / PrefixStable as operators over two recorded outputs; random accepted programs x {origin shift, label bijection, white space, comments, mnemonic case, suffix}; both assemblies are one pair trace judged by TLC; the reference assembler AsmRef is model-checked so the relations are known satisfiable",
+         "TLC trace validation of pair traces (Tr_Pair) + TLC model checking of AsmRef", "7 C18"),
+ "C19": ("spec/Include.tla: INCLUDE expansion as a stack machine, TLC checks it equals the recursive splice and rejects exactly cycles / missing files (with termination) on all 3-file configurations; random programs split into include trees (depth 3, every boundary), missing files and cycles are materialised in a temp dir and assembled versus the spliced file; Tr_Pair judges IncludeEquiv",
+         "TLC model checking of the Include machine + include trees replayed on disk + TLC validation of (including, spliced) pair traces", "7 C19"),
 }
 NOT_YET = {}
 props = [json.loads(l) for l in open(V + "/properties.jsonl")]
